@@ -17,23 +17,46 @@ NEW_COUNTRY = ['ZED', 'K1', 'LAND_A', 'Q', 'NORTH', 'X_Y']
 PREFIXES = ['LAG_SUP_', 'LAG_DEM_', 'SUP_', 'DEM_', 'MU_']
 
 
+TRICKY = ['MEAT', 'ENERGY', 'DEMAND', 'D', 'E', 'M', 'SUPER', 'SUP', 'DEM', 'LAGER', 'LAG', 'MU', 'EXT', 'F', 'INC', 'T',
+          'Durables', 'goods', 'Em_1', 'MON2', 'DEPOT', 'GOODS', 'LABOR', 'XR', 'NET']
+
+
+def random_code(rng, used):
+    for _ in range(50):
+        if rng.random() < 0.45:
+            c = rng.choice(TRICKY)
+        else:
+            n = rng.randint(1, 7)
+            c = rng.choice('ABCDEFGHIJKLMNOPQRSTUVWXYZabcdemsu')
+            for i in range(n - 1):
+                c += rng.choice('ABCDEFGHIJKLMNOPQRSTUVWXYZabcdefghijklmnopqrstuvwxyz0123456789_')
+            c = c.replace('__', '_').rstrip('_') or 'Q'
+        if c not in used and c not in ('MON', 'DEP', 'k', 't') and '__' not in c:
+            used.add(c)
+            return c
+    return 'Z%d' % len(used)
+
+
 def make_renaming(rng, spec):
     codes, ckey_map = {}, {}
-    names = list(NEW_COUNTRY)
-    rng.shuffle(names)
+    used_c = set(['EXT'])
+    used = set(['MON', 'DEP'] + list(M.DEFAULT_CODES.values()))     # every new code is distinct model-wide
     for z in spec['zones']:
         for c in z['countries']:
             if rng.random() < 0.8:
-                ckey_map[c['key']] = names.pop()
+                ckey_map[c['key']] = random_code(rng, used_c) if rng.random() < 0.5 else rng.choice(
+                    [x for x in NEW_COUNTRY if x not in used_c] or ['C%d' % len(used_c)])
+                used_c.add(ckey_map[c['key']])
             cm = {}
-            pool = {r: list(v) for r, v in NEW_CODES.items()}
-            used = set()
             for role in NEW_CODES:
                 if rng.random() < 0.7:
-                    cand = [x for x in pool[role] if x not in used]
-                    if cand:
-                        cm[role] = rng.choice(cand)
-                        used.add(cm[role])
+                    if rng.random() < 0.5:
+                        cand = [x for x in NEW_CODES[role] if x not in used]
+                        if cand:
+                            cm[role] = rng.choice(cand)
+                            used.add(cm[role])
+                    else:
+                        cm[role] = random_code(rng, used)
             codes[c['key']] = cm
     return codes, ckey_map
 
@@ -105,7 +128,7 @@ class C18(object):
             'external sector); (c) embed_book - the bundled builders SIM / SIMEX1 / PC embedded next to each other; every '
             'build is solved by the real main() and re-solved exactly; under the structural name map the variable sets must '
             'coincide (extras only where the spec wires DEM_GOOD = DEM_<new good>) and the exact solutions be equal as '
-            'rationals (1e-9 when a Tobin weight was frozen); a renamed/joint build that raises while the base solves is a '
+            'rationals (1e-5 when a Tobin weight was frozen: the pinned value carries the solver tolerance 1e-6); a renamed/joint build that raises while the base solves is a '
             'violation; distinct = hash of case; non-trivial = >= 1 code actually changed / >= 2 economies')
     assumptions = ['governments take no goods name: for a renamed goods market the spec wires DEM_GOOD = DEM_<new> on the '
                    'government, as the bundled REG model does', 'MON and DEP market codes keep their defaults']
